@@ -461,6 +461,11 @@ class RaftNode(Entity):
 
             if existing and existing.term != entry_term:
                 self._log.truncate_from(idx)
+                # Commands this node accepted as a (since deposed) leader at the
+                # removed indices can no longer commit there: forget their futures
+                # so they are not resolved with another leader's entry.
+                for stale_index in [i for i in self._pending_futures if i >= idx]:
+                    del self._pending_futures[stale_index]
                 self._log.append(entry_term, entry_dict["command"])
             elif not existing:
                 self._log.append(entry_term, entry_dict["command"])
